@@ -70,6 +70,10 @@ def fields(nrows, ncols, seed, few=False):
     f.append(("ones200:dtype=uint8", [200.0] * ntot, None, 0))
     f.append(("neg100:dtype=int8", [-100.0 + (c % 2) for c in range(ntot)], None, 0))
     f.append(("tenths:dtype=float32", [float(np.float32(0.1 * (c + 1))) for c in range(ntot)], None, 0))
+    # grids that carry finite value bounds (mindata / maxdata): a fraction field bounded to [0, 1] whose sums exceed 1
+    # with a no-data marker below the lower bound, and the default field over a flow grid bounded to [0, 128]
+    f.append(("quarter:bounds=0,1", [0.25] * ntot, -999.0, 0))
+    f.append(("default:fdbounds=0,128", None, None, 0))
     if few and ntot > 64:
         # long strips: a count can reach a typical 8-bit no-data marker
         f.append(("default:fdnodata=255", None, None, 255))
@@ -106,6 +110,8 @@ def check_grid(ctx, nrows, ncols, codes, seed, few=False, strip=None):
         case = dict(base, field=fname)
         fd = Grid("fd", ncols, nrows, dtype=np.int64, nodata=fdnodata)
         fd.data = arr
+        if "fdbounds=" in fname and all(0 <= c <= 128 for c in codes):
+            fd.mindata, fd.maxdata = 0, 128
         if fvals is None:
             toacc = None
             own = [1.0] * ntot
@@ -119,6 +125,9 @@ def check_grid(ctx, nrows, ncols, codes, seed, few=False, strip=None):
             toacc.data = np.array(fvals).astype(fdt).reshape(nrows, ncols)
             if not np.array_equal(toacc.data.astype(np.float64).ravel(), np.array(fvals)):
                 raise RuntimeError("harness: field %s not representable in %s" % (fname, fdt))
+            if "bounds=" in fname:
+                lo, hi = fname.split("bounds=")[1].split(",")
+                toacc.mindata, toacc.maxdata = float(lo), float(hi)
             own = fvals
         fd_before = fd.data.copy()
         ta_before = None if toacc is None else toacc.data.copy()
